@@ -3,7 +3,9 @@ package main
 import (
 	"fmt"
 	"math"
+	"os"
 	"runtime"
+	"strconv"
 	"strings"
 
 	"github.com/antchfx/xpath"
@@ -100,6 +102,26 @@ func drain(it *xpath.NodeIterator, limit int) (ids []int, runaway bool) {
 	return ids, false
 }
 
+// pastEnd is the number of further MoveNext calls made after an iterator has reported its end (C12: it must keep
+// answering false); set through VERIF_PAST_END by the checks of the property that claims it.
+var pastEnd = func() int {
+	n, _ := strconv.Atoi(os.Getenv("VERIF_PAST_END"))
+	return n
+}()
+
+// probePastEnd reports a revived iterator as an (undeliberate) failure of the call.
+func probePastEnd(it *xpath.NodeIterator, o *Outcome) {
+	if o.Runaway || o.Panic != "" {
+		return
+	}
+	for i := 1; i <= pastEnd; i++ {
+		if it.MoveNext() {
+			o.Panic, o.Msg = "revived", fmt.Sprintf("MoveNext returned true again on call %d after it had returned false", i)
+			return
+		}
+	}
+}
+
 // doSelect runs expr.Select from node ctx.
 func doSelect(e *xpath.Expr, d *vdoc.Doc, ctx int, plain bool) (o Outcome) {
 	defer guard(&o)
@@ -108,6 +130,7 @@ func doSelect(e *xpath.Expr, d *vdoc.Doc, ctx int, plain bool) (o Outcome) {
 	if o.IDs == nil {
 		o.IDs = []int{}
 	}
+	probePastEnd(it, &o)
 	return
 }
 
@@ -164,6 +187,7 @@ func doEvaluate(e *xpath.Expr, d *vdoc.Doc, ctx int, plain bool) (o Outcome) {
 		if o.IDs == nil {
 			o.IDs = []int{}
 		}
+		probePastEnd(x, &o)
 	default:
 		o.Typ = fmt.Sprintf("%T", v)
 	}
